@@ -222,16 +222,20 @@ def alignment(ctx, P, f, subst):
         return None, None
 
     def rendered(x):
-        return show(_subst(x, subst))
+        return F.key(_subst(x, subst))        # canonical: commutative operands sorted, so `1 + h` == `h + 1`
 
+    hN = [".", ["param", "pindexPrev"], "CBlockIndex::nHeight"]
+    perN = ["vcall", A + "Period", ["this"]]
+    align_key = F.key(["b", "-", hN, ["b", "%", ["b", "+", hN, ["int", 1]], perN]])
+    step_key = F.key(["b", "-", hN, perN])
     kinds = {}
     for s in sites(f, is_write, P):
         a, obj = arg_of(s.expr)
         if a is not None and match(["param", "pindexPrev"], obj):
             r = rendered(a)
-            if r == "%s - ((%s + 1) %% %s)" % (H, H, per):
+            if r == align_key:
                 kinds.setdefault("align", []).append(s)
-            elif r == "%s - %s" % (H, per):
+            elif r == step_key:
                 kinds.setdefault("step", []).append(s)
             else:
                 kinds.setdefault("other", []).append((s, r))
